@@ -316,6 +316,78 @@ func (f *Frame) loadFacts(t types.Type, v []*Term) {
 			f.u.addFact(fact)
 		}
 	}
+	if !pure {
+		// a read that the memory layers turned into a case distinction: every alternative that
+		// is a cell of the initial memory is an input-world object under its own path condition
+		for _, i := range refSlots(t) {
+			if i >= len(v) || v[i].hasBV {
+				continue
+			}
+			n := 0
+			var walk func(c *Term, x *Term)
+			walk = func(c *Term, x *Term) {
+				if n > 32 {
+					return
+				}
+				switch {
+				case x.Op == "ite":
+					walk(tb.And(c, x.Args[0]), x.Args[1])
+					walk(tb.And(c, tb.Not(x.Args[0])), x.Args[2])
+				case len(x.Op) > 6 && x.Op[:6] == "uf:m0_":
+					n++
+					f.u.addFact(tb.Implies(c, tb.rawUlt(x, tb.BVU(32, freshBase))))
+				}
+			}
+			if v[i].Op == "ite" {
+				walk(tb.True(), v[i])
+			}
+		}
+	}
+}
+
+// refSlots lists the slot indices of a value of type t that hold object ids.
+func refSlots(t types.Type) []int {
+	var out []int
+	i := 0
+	var rec func(t types.Type)
+	rec = func(t types.Type) {
+		switch ut := t.Underlying().(type) {
+		case *types.Basic:
+			if ut.Kind() == types.UnsafePointer {
+				out = append(out, i)
+				i += 2
+			} else if ut.Kind() == types.Complex128 || ut.Kind() == types.Complex64 {
+				i += 2
+			} else {
+				i++
+			}
+		case *types.Pointer:
+			out = append(out, i)
+			i += 2
+		case *types.Slice:
+			out = append(out, i)
+			i += 4
+		case *types.Map, *types.Chan:
+			out = append(out, i)
+			i++
+		case *types.Signature:
+			out = append(out, i+1)
+			i += 2
+		case *types.Interface:
+			out = append(out, i+1)
+			i += 3
+		case *types.Struct:
+			for k := 0; k < ut.NumFields(); k++ {
+				rec(ut.Field(k).Type())
+			}
+		case *types.Array:
+			for k := int64(0); k < ut.Len(); k++ {
+				rec(ut.Elem())
+			}
+		}
+	}
+	rec(t)
+	return out
 }
 
 func hasRefs(t types.Type) bool {
